@@ -138,7 +138,9 @@ func (m *c04Mon) after(h *H, s *step) {
 			}
 		}
 		bound := tc.IDSigOK && tc.IDAudOK && tc.IDNonceOK
-		if tc.Accepted && tc.Status == 200 && tc.Dropped == "" && bound && !clearFaulted {
+		// ... but a callback that is answered as a completed login has consumed it, whatever went wrong underneath
+		succeeded := s.Kind == "callback" && s.R.IsRedirect() && !w.IsLoginRedirect(s.R)
+		if tc.Accepted && tc.Status == 200 && tc.Dropped == "" && bound && (!clearFaulted || succeeded) {
 			m.exchanged[key] = s.N
 		}
 	}
@@ -253,7 +255,7 @@ func c04Enum(c *sim.Case) {
 	c.Trace = nil
 	modes := []string{"before", "after"}
 	if ho.o.Store == "redis" {
-		modes = append(modes, "redis")
+		modes = append(modes, "redis", "redis1", "redis2", "redis3", "redis4")
 	}
 	ho.faults = map[int]string{sim.Pick(c, "pos", P): modes[sim.Pick(c, "mode", len(modes))]}
 	c.Logf("world: %v", ho)
